@@ -426,6 +426,7 @@ inline auto cmd_run(std::map<std::string, std::string> const& opt) -> int
     int const maxViol      = static_cast<int>(std::strtol(get("max-viol", "40").c_str(), nullptr, 10));
     std::string const dump = get("dump-hashes", "");
     FILE* dumpFile         = dump.empty() ? nullptr : std::fopen(dump.c_str(), "w");
+    bool const neutralOnly = get("neutral-only", "0") == "1";
 
     std::vector<Scenario const*> elig;
     for (auto const& s : registry()) {
@@ -476,7 +477,8 @@ inline auto cmd_run(std::map<std::string, std::string> const& opt) -> int
         g_crash.steps = steps;
         lastIdx       = i;
         if (dumpFile != nullptr) {
-            std::fprintf(dumpFile, "%ld %016llx\n", i, static_cast<unsigned long long>(r.hash));
+            std::fprintf(dumpFile, "%ld %016llx %llu %s\n", i, neutralOnly && !sc.compilerNeutral ? 0ULL : static_cast<unsigned long long>(r.hash),
+                         static_cast<unsigned long long>(seed), sc.name.c_str());
         }
         steps += r.steps;
         faults += r.faults;
